@@ -313,7 +313,7 @@ macro_rules! str_harness {
     ($(#[$m: meta])* fn $name: ident () unwind($u: expr) $body: block) => {
         $crate::harness! {
             $(#[$m])*
-            fn $name() unwind($u) stubs(std::string::String::push_str => crate::common::stub_push_str, std::string::String::push => crate::common::stub_push, log::max_level => crate::common::stub_log_max_level_off) $body
+            fn $name() unwind($u) stubs(std::string::String::push_str => crate::common::stub_push_str, std::string::String::push => crate::common::stub_push, log::max_level => crate::common::stub_log_max_level_off, core::slice::memchr::memchr => crate::common::stub_memchr, core::slice::memchr::memrchr => crate::common::stub_memrchr) $body
         }
     };
 }
@@ -419,4 +419,23 @@ pub fn stub_memmem_find(haystack: &[u8], needle: &[u8]) -> Option<usize> {
 /// explicit for the solver (otherwise the whole `fmt` machinery behind each message is encoded).
 pub fn stub_log_max_level_off() -> log::LevelFilter {
     log::LevelFilter::Off
+}
+
+/// Loop-free models of core's byte searches for haystacks of at most 16 bytes (asserted): CBMC
+/// unwinds every loop to the harness bound, and these searches sit inside two further loops in
+/// the cursor code, so a loop here multiplies the formula by the bound cubed.
+pub fn stub_memchr_16(x: u8, t: &[u8]) -> Option<usize> {
+    let n = t.len();
+    assert!(n <= 16, "stub_memchr_16: haystack longer than 16 bytes");
+    macro_rules! at { ($($i: expr),*) => { $( if n > $i && t[$i] == x { return Some($i); } )* } }
+    at!(0, 1, 2, 3, 4, 5, 6, 7, 8, 9, 10, 11, 12, 13, 14, 15);
+    None
+}
+
+pub fn stub_memrchr_16(x: u8, t: &[u8]) -> Option<usize> {
+    let n = t.len();
+    assert!(n <= 16, "stub_memrchr_16: haystack longer than 16 bytes");
+    macro_rules! at { ($($i: expr),*) => { $( if n > $i && t[$i] == x { return Some($i); } )* } }
+    at!(15, 14, 13, 12, 11, 10, 9, 8, 7, 6, 5, 4, 3, 2, 1, 0);
+    None
 }
